@@ -72,3 +72,11 @@ Print Assumptions C16_sum_error_any_bracketing.
 Print Assumptions C16_variance_rounding_bound.
 Print Assumptions C16_bound_is_proportional_to_squared_magnitude.
 Print Assumptions C16_clip_keeps_the_bound.
+
+(* Tie B (pins): the functions this property's models transcribe read, statement by statement, as they did when the models
+   were written against them; Gen/SourcesGen.v is regenerated from /repo on every run (translator/pins.py). *)
+From GL Require Import Gen.SourcesGen Model.Sources Proofs.PinC16.
+Theorem C16_modelled_functions_are_the_source's :
+  gen_src_groupby_var = src_groupby_var.
+Proof. exact pin_groupby_var. Qed.
+Print Assumptions C16_modelled_functions_are_the_source's.
